@@ -71,6 +71,9 @@ func c05Predicate(d *simnet.Datagram, req ntp.Packet, srv netip.Addr, nts bool, 
 }
 
 func c05World(t *testing.T, r *simcore.Run) any {
+	if r.Index%4 == 3 {
+		return c05SCIONWorld(r)
+	}
 	tp := r.Tape
 	useNTS := tp.Bool(1, 3, "nts")
 	var w *ipWorld
